@@ -32,7 +32,7 @@ func init() {
 	})
 	register(&Rule{
 		Name:  "OBS-1",
-		Doc:   "the observers (printing plus Operands, Succs, Sig, ID, IsUnnamed, MDAttachments) write no shared memory other than ID fields, result-type caches and successor caches: none of them sorts, appends to, or normalises a field of the IR",
+		Doc:   "the observers (printing plus Operands, Succs, Sig, ID, IsUnnamed, MDAttachments) write no shared memory other than ID fields and result-type caches: none of them sorts, appends to, or normalises a field of the IR",
 		Floor: 40,
 		NeedS: true,
 		Run:   ruleOBS1,
@@ -287,7 +287,9 @@ func ruleRACE1(c *Ctx) []Obligation {
 }
 
 func ruleOBS1(c *Ctx) []Obligation {
-	return printWriteObligations(c, "OBS-1", observerRootNames, true)
+	// the successor caches of terminators were removed by the repair of F16 (/repo 3c2f5b7): an
+	// observer that fills one again is reported
+	return printWriteObligations(c, "OBS-1", observerRootNames, false)
 }
 
 func ruleDET2(c *Ctx) []Obligation {
